@@ -1,5 +1,7 @@
 """C16 extras: the bit-wise operators with operands the interpreter's model does not cover (little-endian bitarrays, frozenbitarrays
 of both endiannesses, promoted on the fly), natively."""
+META = {'explanation': 'every operator and in-place form proved per bit over the four classes, store states and modelled operand kinds; operand kinds '
+                       'outside the model (bitarrays / frozenbitarrays of both bit-endiannesses) are a bounded native sweep.'}
 EXTRA_TASKS = ['bitarray_operands']
 
 
